@@ -301,12 +301,12 @@ theorem zero_width_guard_present :
     the length determinants announce — 64K·k, fragmented, from a SIZE constraint — at most `max lim 1`
     elements are ever allocated. -/
 theorem zero_width_guard (c : SetOfCfg) (lim : Nat) (ct : Option (Nat × Nat)) (bits : Bits)
-    (hw : c.w = 0) (hr : c.rep0 = true) (hl : c.limit = some lim) (hlim : lim < 16384) :
+    (hw : c.w = 0) (hl : c.limit = some lim) (hlim : lim < 16384) :
     (setOfUper c ct bits).2.2.cnt ≤ max lim 1 := by
   unfold setOfUper
   cases ct with
   | none =>
-    have := roundsUper_cnt_zero c lim hw hr hl hlim (bits.length + 1) none bits
+    have := roundsUper_cnt_zero c lim hw hl hlim (bits.length + 1) none bits
       { h := ({} : Heap).alloc c.ssz }
     simpa using this
   | some p =>
@@ -316,15 +316,16 @@ theorem zero_width_guard (c : SetOfCfg) (lim : Nat) (ct : Option (Nat × Nat)) (
     | none => simp
     | some q =>
       obtain ⟨v, r⟩ := q
-      have := roundsUper_cnt_zero c lim hw hr hl hlim (r.length + 1) (some (v + lb)) r
+      have := roundsUper_cnt_zero c lim hw hl hlim (r.length + 1) (some (v + lb)) r
         { h := ({} : Heap).alloc c.ssz }
       simpa using this
 
-/-- **heap_linear (UPER SET OF / SEQUENCE OF).**  With the guard in place (and an element decoder that
-    reports zero consumption when it consumes nothing) the peak heap of the decode is at most
+/-- **heap_linear (UPER SET OF / SEQUENCE OF).**  With the guard in place — it compares the stream position
+    before and after the element, so nothing is assumed about what the element decoder reports (the former
+    hypothesis `c.w = 0 → c.rep0 = true` is gone with the repair of F47) — the peak heap of the decode is at most
     `K·n + F` with `K = esz + 16` per input *bit* and `F = ssz + (esz+16)·max lim 1 + 32 + esz`. -/
 theorem heap_linear (c : SetOfCfg) (lim : Nat) (ct : Option (Nat × Nat)) (bits : Bits)
-    (hz : c.w = 0 → c.rep0 = true) (hl : c.limit = some lim) (hlim : lim < 16384) :
+    (hl : c.limit = some lim) (hlim : lim < 16384) :
     (setOfUper c ct bits).2.2.h.peak ≤
       (c.esz + 16) * bits.length + (c.ssz + (c.esz + 16) * max lim 1 + 32 + c.esz) := by
   -- invariant: peak ≤ ssz + cnt·esz + 16·cnt + 32 + esz
@@ -341,7 +342,7 @@ theorem heap_linear (c : SetOfCfg) (lim : Nat) (ct : Option (Nat × Nat)) (bits 
   -- count: cnt ≤ bits.length + max lim 1
   have hcnt : (setOfUper c ct bits).2.2.cnt ≤ bits.length + max lim 1 := by
     by_cases hw : c.w = 0
-    · have := zero_width_guard c lim ct bits hw (hz hw) hl hlim; omega
+    · have := zero_width_guard c lim ct bits hw hl hlim; omega
     · have hw1 : 1 ≤ c.w := by omega
       have hwide : (setOfUper c ct bits).2.2.cnt * c.w ≤ bits.length := by
         unfold setOfUper
@@ -370,11 +371,42 @@ theorem heap_linear (c : SetOfCfg) (lim : Nat) (ct : Option (Nat × Nat)) (bits 
   rw [Nat.mul_add] at h2
   omega
 
+/-- **The guard refuses zero-width elements only (finding F47 repaired).**  Elements that take bits
+    (`c.w > 0`: constrained INTEGER, ENUMERATED, BOOLEAN, SEQUENCE …): whatever the element decoder reports in
+    `rv.consumed`, any announced count `n` — above the limit of the guard too — whose elements are in the input
+    is decoded: `n` elements, RC_OK, the bits behind them left. -/
+theorem wide_elements_not_refused (c : SetOfCfg) (bits rest : Bits) (n : Nat) (hw : 0 < c.w)
+    (hlen : uperGetLength none 0 bits = some (n, false, rest)) (hbits : n * c.w ≤ rest.length) :
+    (setOfUper c none bits).1 = .ok ∧ (setOfUper c none bits).2.2.cnt = n ∧
+    (setOfUper c none bits).2.1 = rest.drop (n * c.w) := by
+  obtain ⟨h1, h2, h3⟩ := elemsUper_wide_ok c n hw n rest { h := ({} : Heap).alloc c.ssz } hbits
+  unfold setOfUper
+  simp only [roundsUper_step, hlen]
+  generalize elemsUper c n n rest { h := ({} : Heap).alloc c.ssz } = r at h1 h2 h3
+  obtain ⟨o, b, s⟩ := r
+  simp only at h1 h2 h3
+  subst h1
+  simp only [Bool.false_eq_true, if_false]
+  exact ⟨trivial, by simpa using h2, h3⟩
+
+/-- the former F47 witness: `SEQUENCE OF INTEGER (0..7)`, 201 elements of 3 bits (`80 c9`, then 603 bits).  The
+    element decoder reports `rv.consumed = 0` (`rep0 = true`); before the repair the guard answered RC_FAIL. -/
+theorem former_F47_witness_decodes (ssz esz : Nat) :
+    (setOfUper ⟨ssz, esz, 3, true, zeroWidthLimitUper⟩ none
+      (bytesToBits ([0x80, 0xc9] ++ List.replicate 76 0xb6))).1 = .ok ∧
+    (setOfUper ⟨ssz, esz, 3, true, zeroWidthLimitUper⟩ none
+      (bytesToBits ([0x80, 0xc9] ++ List.replicate 76 0xb6))).2.2.cnt = 201 := by
+  have h := wide_elements_not_refused ⟨ssz, esz, 3, true, zeroWidthLimitUper⟩
+    (bytesToBits ([0x80, 0xc9] ++ List.replicate 76 0xb6)) (bytesToBits (List.replicate 76 0xb6)) 201
+    (by show 0 < 3; decide) (by decide +kernel)
+    (by show 201 * 3 ≤ (bytesToBits (List.replicate 76 0xb6)).length; decide +kernel)
+  exact ⟨h.1, h.2.1⟩
+
 /-- the real configuration: SET OF NULL (48-byte set structure, 4-byte elements), limit from the source.
     Peak ≤ 20 bytes per input bit + 4084, for every input. -/
 theorem heap_linear_set_of_null (ct : Option (Nat × Nat)) (bits : Bits) :
     (setOfUper ⟨48, 4, 0, true, zeroWidthLimitUper⟩ ct bits).2.2.h.peak ≤ 20 * bits.length + 4084 := by
-  have := heap_linear ⟨48, 4, 0, true, zeroWidthLimitUper⟩ 200 ct bits (fun _ => rfl) (by decide) (by decide)
+  have := heap_linear ⟨48, 4, 0, true, zeroWidthLimitUper⟩ 200 ct bits (by decide) (by decide)
   simpa using this
 
 /-- **Counter-example without the guard**: one octet `c4` (a fragment announcing 64K elements) makes the
